@@ -96,6 +96,13 @@ func PluginSchema(variant string) *schema.SchemaSchema {
 		steps["renamed"] = workStep("renamed", true, str())
 	case "grown":
 		steps["work"] = workStepGrown("work", true, str(), true)
+	case "more-outputs":
+		// a later release that declares (and, with the outcome "undeclared", returns) an output the earlier one did not have
+		st := workStep("work", true, str())
+		st.OutputsValue["nonsense"] = schema.NewStepOutputSchema(obj("WorkNonsense", map[string]*schema.PropertySchema{
+			"x": prop(schema.NewIntSchema(nil, nil, nil), true),
+		}), nil, false)
+		steps["work"] = st
 	default:
 		steps["work"] = workStep("work", true, str())
 	}
